@@ -1,5 +1,5 @@
 ENGINES=[
- dict(name="envx",path="engine/vf.h",serves_properties=["C19","C15","C14","C16"],kind_free_text="bounded-exhaustive enumeration / deviation-bounded choice explorer over the real code, fork-sharded with crash isolation"),
+ dict(name="envx",path="engine/vf.h",serves_properties=["C19","C15","C14","C16","C11"],kind_free_text="bounded-exhaustive enumeration / deviation-bounded choice explorer over the real code, fork-sharded with crash isolation"),
 ]
 NOT_YET={}
 chk("C19","envx","exploration",
@@ -18,3 +18,7 @@ chk("C16","envx","exploration",
  "Digest and HMAC objects are explored as state machines: every operation sequence up to depth 4 (thorough 5) over appends around the block boundaries, readout and clone, every message length 0..2B+9 with every 2-chunking and 3-chunkings to B+9, HMAC key-length classes with object reuse over 18 messages, AES-CBC 1..4 blocks chained and single-call, and hex key parsing over all short strings; every state compared with libcrypto one-shot functions anchored by embedded known-answer vectors.",
  "Trusted base: OpenSSL EVP one-shot digest/HMAC/CBC plus embedded FIPS 180-4 / RFC 2202 / RFC 4231 vectors. SHA-2 and AES in cppcms are themselves thin wrappers over the same library, so for them the check covers the wrapper logic (init/update/final/re-init/clone/IV chaining).",
  "bounded-exhaustive operation-sequence and chunking enumeration vs one-shot reference functions")
+chk("C11","envx","exploration",
+ "Every string up to length 6 (thorough 7) over an 18-character JSON alphabet and every sequence of up to 6 (7) tokens of a 16-token set is parsed by the real parser and compared with a strict RFC 8259 recogniser + tree builder: strict-valid documents must be accepted with an equal tree, accepted documents must satisfy the UTF-8 / depth post-conditions, rejected ones must leave the target untouched. Plus every byte and byte pair inside a string, \\u pairs, a number grid, nesting around the 512 bound, all value trees to depth 2 (+ depth-3 grid) round-tripped in compact/readable form under a classic and a comma-decimal stream locale, and typed extraction for all integer widths. Complete within those bounds.",
+ "Trusted: the strict reference recogniser in harness/C11 and strtod. Acceptance of a superset of RFC 8259 is not a violation. One known finding (DBL_MAX neighbourhood does not round-trip) is listed in known_findings.jsonl.",
+ "bounded-exhaustive input / value-tree enumeration vs a strict reference parser")
